@@ -44,3 +44,55 @@ example : judge 9 [1] s0 ([.creat 11 1, .write 11, .fsync 11, .rename 11 1] ++ l
 example : judge 9 [1] s0 (lowerWrite 19 9 0 ++ lowerWrite 11 1 1) = some 3 := by decide
 
 end DSV.Fs
+
+namespace DSV.Fs
+
+theorem judge_go_no_flip (hint : Nat) (reach : List Nat) (evs : List Ev) (h : ∀ e ∈ evs, flipsTo hint e = false) :
+    ∀ (s : St) (i : Nat), judge.go hint reach s false i evs = none := by
+  induction evs with
+  | nil => intro s i; rfl
+  | cons e rest ih =>
+    intro s i
+    have he : flipsTo hint e = false := h e (List.mem_cons_self)
+    have ih' := ih (fun e' he' => h e' (List.mem_cons_of_mem _ he'))
+    unfold judge.go
+    cases e with
+    | rename src dst =>
+      have hne : (dst == hint) = false := by simpa [flipsTo] using he
+      simp only [hne, Bool.false_or, Bool.false_and]
+      exact ih' _ _
+    | creat p d => simpa using ih' _ _
+    | write p => simpa using ih' _ _
+    | fsync p => simpa using ih' _ _
+    | fsyncDir d => simpa using ih' _ _
+    | unlink p => simpa using ih' _ _
+
+/-- **fsync_failure_no_flip** — when the fsync of any referenced file fails, the commit's trace contains no rename onto the
+pointer (for every number of files and every failing position), so the judge has nothing to object to at any prefix: the
+pointer never advances over a file whose flush failed. (Pointer path distinct from every referenced file's final path.) -/
+theorem fsync_failure_no_flip (files : List W) (k : Nat) (hint : Nat) (hd : ∀ w ∈ files, w.fin ≠ hint) :
+    (∀ e ∈ commitTraceFail files k, flipsTo hint e = false) ∧
+    ∀ (reach : List Nat) (s0 : St), judge hint reach s0 (commitTraceFail files k) = none := by
+  have h1 : ∀ e ∈ commitTraceFail files k, flipsTo hint e = false := by
+    intro e he
+    unfold commitTraceFail at he
+    rcases List.mem_append.1 he with he | he
+    · obtain ⟨w, hw, hew⟩ := List.mem_flatMap.1 he
+      have hwf : w ∈ files := List.mem_of_mem_take hw
+      have := hd w hwf
+      simp only [lowerWrite, List.mem_cons, List.mem_nil_iff, or_false] at hew
+      rcases hew with rfl | rfl | rfl | rfl | rfl <;> simp [flipsTo, this]
+    · cases hk : files[k]? with
+      | none => simp [hk] at he
+      | some w =>
+        simp only [hk, lowerWriteFail, List.mem_cons, List.mem_nil_iff, or_false] at he
+        rcases he with rfl | rfl | rfl <;> simp [flipsTo]
+  refine ⟨h1, ?_⟩
+  intro reach s0
+  unfold judge
+  exact judge_go_no_flip hint reach _ h1 s0 0
+
+example : commitTraceFail [⟨10, 1, 0⟩, ⟨11, 2, 0⟩] 1 = [.creat 10 0, .write 10, .fsync 10, .rename 10 1, .fsyncDir 0, .creat 11 0, .write 11, .unlink 11] := by
+  decide
+
+end DSV.Fs
